@@ -198,7 +198,8 @@ def package_libs(rng, count):
             classes.append("P.User")
         parts.append("end P;\n")
         if rng.random() < 0.5:
-            parts.append("package A\n  model X\n    Real a;\n  equation\n    a = 1;\n  end X;\nend A;\n"
+            parts.append("package A\n  model X\n    Real a;\n  equation\n    a = 1;\n  end X;\n"
+                         "  package S\n    model X2\n      Real a2;\n    equation\n      a2 = 3;\n    end X2;\n  end S;\nend A;\n"
                          "package B\n  model Y\n    Real b;\n  equation\n    b = 2;\n  end Y;\nend B;\n")
             form = rng.choice(["two-unqualified", "qualified", "renaming", "one-unqualified"])
             if form == "two-unqualified":
@@ -209,14 +210,20 @@ def package_libs(rng, count):
                 imp, cx, cy = "  import XX = A.X;\n  import B.Y;\n", "XX", "Y"
             else:
                 imp, cx, cy = "  import A.*;\n", "X", "B.Y"
+            # a dotted name whose first component comes from an unqualified import (A.* brings S, the model is S.X2)
+            dotted = "  S.X2 xs;\n" if "A.*" in imp and rng.random() < 0.6 else ""
+            if dotted:
+                tags.add("dotted-name-through-unqualified-import")
+            imp_decl = imp
+            imp = imp + dotted
             if rng.random() < 0.5:
                 parts.append("model UsesImports\n%s  %s x;\n  %s y;\n  Real t;\nequation\n  t = x.a + y.b;\nend UsesImports;\n" % (imp, cx, cy))
                 classes.append("UsesImports")
                 tags.add("import-in-model:" + form)
             else:
                 # the imports belong to an enclosing package of the flattened model
-                parts.append("package Pk\n%s  model M\n    %s x;\n    %s y;\n    Real t;\n  equation\n    t = x.a + y.b;\n  end M;\n"
-                             "  model N\n    %s x2;\n  end N;\nend Pk;\n" % (imp, cx, cy, cx))
+                parts.append("package Pk\n%s  model M\n    %s x;\n    %s y;\n  %s    Real t;\n  equation\n    t = x.a + y.b;\n  end M;\n"
+                             "  model N\n    %s x2;\n  end N;\nend Pk;\n" % (imp_decl, cx, cy, dotted, cx))
                 classes += ["Pk.M", "Pk.N"]
                 tags.add("import-in-enclosing-package:" + form)
         L = Lib("package-library-%d" % k, ["".join(parts)])
